@@ -184,11 +184,15 @@ inline constexpr void convert_type_fundamental_or_array(T_To& to,
     // Same size and signedness is not enough for a verbatim copy: bool and
     // unsigned char (or float and an integer type) agree in both, but do not
     // have the same values; and bool elements are converted one by one, as
-    // only the bytes 0 and 1 are bools
+    // only the bytes 0 and 1 are bools; and long double elements are assigned
+    // one by one, as their object representation has padding bytes (x87: 10 of
+    // 16 bytes carry the value) that a verbatim copy would take along from
+    // the source object - application bytes into the sandbox and back
     if constexpr (sizeof(T_To_El) == sizeof(T_From_El) &&
                   is_signed_v<T_To_El> == is_signed_v<T_From_El> &&
                   !is_bool_valued_v<T_To_El> &&
                   !is_bool_valued_v<T_From_El> &&
+                  !std::is_same_v<std::remove_cv_t<T_To_El>, long double> &&
                   is_floating_point_v<T_To_El> ==
                     is_floating_point_v<T_From_El>) {
       // Sanity check - this should definitely be true
